@@ -375,7 +375,9 @@ class Ctx:
         if self.engine.skip_obligations:
             # bounded-execution jobs: obligations of the executed code are proved elsewhere (their own contracts); here they
             # are only assumed so that execution can proceed
-            self.assume(goal)
+            g = z3.simplify(goal)
+            if not z3.is_true(g):     # concrete heaps: most guards simplify to true; do not grow the path condition with them
+                self.assume(g)
             return None
         plain_goal = goal
         hook = self.state.get('oblige_hook')
